@@ -7,6 +7,9 @@ def run(ck, fb, fbd):
     readers.range_rules(ck, fb)
     readers.result_rules(ck, fb)
     readers.edge_dup_rule(ck, fb)
+    readers.encoding_rule(ck, fb)
+    from .c11 import nonempty_entry
+    nonempty_entry(ck, fb)
     readers.empty_sequence_rules(ck, fb)
     readers.loop_rules(ck, fb)
     readers.exception_rules(ck, fb)
